@@ -147,20 +147,31 @@ Proof.
         assert (S q + length (q' :: qs') <= m + S (length (q' :: qs'))).
         { apply Hb'; [|discriminate]. intros x Hx. apply Hlt. now right. }
         lia. }
-    unfold append_zeros. cbn [combine fold_left fst snd]. unfold append_zero at 2.
-    assert (q <=? m = true) as -> by (apply Nat.leb_le; exact Hq).
     set (t1 := fun y : bits => if Bool.eqb (nth q y false) r then sub (remove_nth q y) else zi0).
+    assert (E1 : append_zeros (q :: qs) (r :: rs) (Some (m, sub)) = append_zeros qs rs (Some (S m, t1))).
+    { unfold append_zeros. cbn [combine fold_left fst snd]. unfold append_zero at 2.
+      assert (q <=? m = true) as -> by (apply Nat.leb_le; exact Hq). reflexivity. }
+    rewrite E1.
     destruct (IH rs (S q) (S m) t1 Hasc) as [T [HT1 HT2]].
     + lia.
     + intros x Hx. specialize (Hlt x (or_intror Hx)). lia.
     + exists T. split.
-      * unfold append_zeros in HT1. rewrite HT1. f_equal. f_equal. lia.
+      * transitivity (Some (S m + length qs, T)); [exact HT1 | f_equal; f_equal; lia].
       * intros y Hy. rewrite HT2 by lia.
         assert (Hgt : forall x, In x qs -> q < x).
         { intros x Hx. pose proof (asc_ge _ _ Hasc x Hx). lia. }
         destruct (remove_psel q qs y Hgt) as [R1 R2]; [lia|].
         cbn [sel map beqb]. fold (sel qs y). unfold t1. rewrite R1, R2.
         destruct (Bool.eqb (nth q y false) r), (beqb (sel qs y) rs); reflexivity.
+Qed.
+
+Lemma NoDup_app_intro {A} (l l' : list A) :
+  NoDup l -> NoDup l' -> (forall x, In x l -> In x l' -> False) -> NoDup (l ++ l').
+Proof.
+  induction l as [|x l IH]; intros H1 H2 H3; cbn [app]; [assumption|].
+  inversion H1 as [|? ? Hx Hl]; subst. constructor.
+  - rewrite in_app_iff. intros [H|H]; [contradiction | apply (H3 x); [now left | assumption]].
+  - apply IH; [assumption | assumption |]. intros y Hy. apply H3. now right.
 Qed.
 
 (* ---------- un-transposing: an index list that enumerates all axes *)
@@ -174,7 +185,7 @@ Proof.
   - intros i Hi. rewrite map_length, seq_length in Hi.
     rewrite (nth_map_lt _ _ _ 0) by (rewrite seq_length; exact Hi).
     rewrite seq_nth by exact Hi. cbn [Nat.add]. unfold sel.
-    apply nth_index_of_map. now apply Hall.
+    apply (nth_index_of_map (fun q => nth q y false)). now apply Hall.
 Qed.
 
 Section Collapse.
@@ -219,7 +230,7 @@ Section Collapse.
     unfold collapse_state. fold k.
     destruct (append_zeros_asc qs (to_bin k shot) 0 (n - k) (collapse_sub n qs shot psi) Hasc) as [T [HT1 HT2]].
     - now rewrite to_bin_length.
-    - intros q Hq. specialize (Hlt q Hq). pose proof k_le_n. fold k. lia.
+    - intros q Hq. pose proof (Hlt q Hq). pose proof k_le_n. fold k. lia.
     - rewrite HT1. pose proof k_le_n as Hk. fold k.
       assert (n - k + k =? n = true) as -> by (apply Nat.eqb_eq; lia).
       f_equal. unfold project. apply map_ext_in. intros y Hy. apply allbits_length in Hy.
@@ -235,3 +246,230 @@ Section Collapse.
       rewrite (untranspose _ n y O1 O2 O3 Hy). reflexivity.
   Qed.
 End Collapse.
+
+(* ---------- summing over the block of a shot = summing over the states that project onto it *)
+Fixpoint pmerge (p : nat -> bool) (a n : nat) (bin beta : bits) : bits :=
+  match n with
+  | O => []
+  | S n' => if p a then hd false bin :: pmerge p (S a) n' (tl bin) beta
+            else hd false beta :: pmerge p (S a) n' bin (tl beta)
+  end.
+
+Definition cntp (p : nat -> bool) (a n : nat) : nat := length (filter p (seq a n)).
+
+Lemma cntp_S p a n : cntp p a (S n) = (if p a then 1 else 0) + cntp p (S a) n.
+Proof. unfold cntp. cbn [seq filter]. destruct (p a); reflexivity. Qed.
+
+Lemma cntp_le p n : forall a, cntp p a n <= n.
+Proof. induction n as [|n IH]; intros a; [cbn; lia|]. rewrite cntp_S. specialize (IH (S a)). destruct (p a); lia. Qed.
+
+Lemma filter_map_cons (c : bool) (g : bits -> bool) l :
+  filter (fun x => g x) (map (cons c) l) = map (cons c) (filter (fun x => g (c :: x)) l).
+Proof.
+  induction l as [|x l IH]; [reflexivity|]. cbn [map filter]. destruct (g (c :: x)); cbn [map]; now rewrite IH.
+Qed.
+
+Lemma filter_false {A} (l : list A) : filter (fun _ => false) l = [].
+Proof. induction l; auto. Qed.
+
+Lemma filter_merge p n : forall a bin, length bin = cntp p a n ->
+  filter (fun x => beqb (psel p a x) bin) (allbits n) = map (pmerge p a n bin) (allbits (n - length bin)).
+Proof.
+  induction n as [|n IH]; intros a bin Hlen.
+  - cbn in Hlen. destruct bin; [|discriminate]. reflexivity.
+  - rewrite cntp_S in Hlen. cbn [allbits]. rewrite filter_app, !filter_map_cons.
+    destruct (p a) eqn:Hp.
+    + destruct bin as [|b0 bin]; [discriminate|]. cbn [length] in *.
+      replace (S n - S (length bin)) with (n - length bin) by lia.
+      assert (E : forall c, filter (fun x => beqb (psel p a (c :: x)) (b0 :: bin)) (allbits n)
+                            = if Bool.eqb c b0 then map (pmerge p (S a) n bin) (allbits (n - length bin)) else []).
+      { intros c. cbn [psel]. rewrite Hp. cbn [beqb].
+        destruct (Bool.eqb c b0); cbn [andb]; [apply IH; lia | apply filter_false]. }
+      rewrite !E.
+      assert (Em : forall beta, pmerge p a (S n) (b0 :: bin) beta = b0 :: pmerge p (S a) n bin beta).
+      { intros beta. cbn [pmerge]. rewrite Hp. reflexivity. }
+      rewrite (map_ext _ _ Em).
+      destruct b0; cbn [Bool.eqb map app]; rewrite ?app_nil_r, map_map; reflexivity.
+    + cbn [Nat.add] in Hlen.
+      pose proof (cntp_le p n (S a)) as Hle.
+      replace (S n - length bin) with (S (n - length bin)) by lia. cbn [allbits].
+      assert (E : forall c, filter (fun x => beqb (psel p a (c :: x)) bin) (allbits n)
+                            = map (pmerge p (S a) n bin) (allbits (n - length bin))).
+      { intros c. cbn [psel]. rewrite Hp. now apply IH. }
+      rewrite !E, map_app, !map_map. f_equal; apply map_ext; intros beta; cbn [pmerge]; rewrite Hp; reflexivity.
+Qed.
+
+Lemma pmerge_spec p n : forall a bin beta, length bin = cntp p a n -> length beta = n - cntp p a n ->
+  length (pmerge p a n bin beta) = n /\
+  psel p a (pmerge p a n bin beta) = bin /\
+  psel (fun i => negb (p i)) a (pmerge p a n bin beta) = beta.
+Proof.
+  induction n as [|n IH]; intros a bin beta Hb Hbe.
+  - cbn in Hb, Hbe. destruct bin, beta; try discriminate. repeat split.
+  - rewrite cntp_S in Hb, Hbe. pose proof (cntp_le p n (S a)) as Hle.
+    cbn [pmerge psel]. destruct (p a) eqn:Hp.
+    + destruct bin as [|b0 bin]; [discriminate|]. cbn [length hd tl] in *.
+      destruct (IH (S a) bin beta) as [H1 [H2 H3]]; [lia | lia |].
+      cbn [psel length]. rewrite Hp. cbn [negb]. rewrite H1, H2, H3. repeat split.
+    + destruct beta as [|c0 beta]; [cbn [length] in Hbe; lia|]. cbn [length hd tl] in *.
+      destruct (IH (S a) bin beta) as [H1 [H2 H3]]; [lia | lia |].
+      cbn [psel length]. rewrite Hp. cbn [negb]. rewrite H1, H2, H3. repeat split.
+Qed.
+
+Lemma filter_none {A} (p : A -> bool) l : (forall x, In x l -> p x = false) -> filter p l = [].
+Proof.
+  induction l as [|x l IH]; intros H; [reflexivity|]. cbn [filter].
+  rewrite (H x) by now left. apply IH. intros y Hy. apply H. now right.
+Qed.
+
+(* an ascending list is the increasing enumeration of its elements *)
+Lemma asc_filter m : forall a qs, asc a qs = true -> (forall q, In q qs -> q < a + m) ->
+  filter (fun i => mem i qs) (seq a m) = qs.
+Proof.
+  induction m as [|m IH]; intros a qs Hasc Hlt.
+  - destruct qs as [|q qs]; [reflexivity|]. exfalso.
+    pose proof (asc_ge _ _ Hasc q (or_introl eq_refl)). specialize (Hlt q (or_introl eq_refl)). lia.
+  - cbn [seq filter]. destruct qs as [|q qs].
+    + cbn [mem existsb]. apply filter_none. reflexivity.
+    + pose proof Hasc as Hasc0. cbn [asc] in Hasc. apply andb_true_iff in Hasc. destruct Hasc as [Hlo Hasc].
+      apply Nat.leb_le in Hlo.
+      destruct (Nat.eq_dec a q) as [->|Hne].
+      * assert (mem q (q :: qs) = true) as -> by (apply mem_In; now left).
+        f_equal. transitivity (filter (fun i => mem i qs) (seq (S q) m)); [|apply IH; [exact Hasc|]].
+        -- apply filter_ext_in. intros i Hi. apply in_seq in Hi. unfold mem. cbn [existsb].
+           assert (i =? q = false) as -> by (apply Nat.eqb_neq; lia). reflexivity.
+        -- intros x Hx. specialize (Hlt x (or_intror Hx)). lia.
+      * assert (mem a (q :: qs) = false) as ->.
+        { destruct (mem a (q :: qs)) eqn:E; [|reflexivity]. apply mem_In in E.
+          pose proof (asc_ge _ _ Hasc0 a E). destruct E as [E|E]; [lia|].
+          pose proof (asc_ge _ _ Hasc a E). lia. }
+        apply IH.
+        -- cbn [asc]. apply andb_true_iff. split; [apply Nat.leb_le; lia | exact Hasc].
+        -- intros x Hx. specialize (Hlt x Hx). lia.
+Qed.
+
+Section CollapseNorm.
+  Variables (n : nat) (qs : list nat).
+  Hypothesis Hasc : asc 0 qs = true.
+  Hypothesis Hlt : forall q, In q qs -> q < n.
+
+  Let k := length qs.
+  Let p := fun i => mem i qs.
+
+  Lemma cntp_k : cntp p 0 n = k.
+  Proof. unfold cntp, p. now rewrite asc_filter. Qed.
+
+  Lemma sel_qs_psel x : length x = n -> sel qs x = psel p 0 x.
+  Proof. intros Hx. rewrite <- (sel_filter_seq0 p n x Hx). unfold p. now rewrite asc_filter. Qed.
+
+  Lemma sel_un_psel x : length x = n -> sel (unmeasured n qs) x = psel (fun i => negb (p i)) 0 x.
+  Proof. intros Hx. unfold unmeasured. now apply sel_filter_seq0. Qed.
+
+  (* the entry of the selected block at beta is the amplitude at the merged index *)
+  Lemma collapse_sub_merge shot psi beta : length beta = n - k ->
+    collapse_sub n qs shot psi beta = nth (idx (pmerge p 0 n (to_bin k shot) beta)) psi zi0.
+  Proof.
+    intros Hbe. unfold collapse_sub, np_transpose, reshape_state. fold k.
+    destruct (pmerge_spec p n 0 (to_bin k shot) beta) as [M1 [M2 M3]].
+    { now rewrite to_bin_length, cntp_k. }
+    { now rewrite cntp_k. }
+    set (y := pmerge p 0 n (to_bin k shot) beta) in *.
+    assert (Esel : to_bin k shot ++ beta = sel (qs ++ unmeasured n qs) y).
+    { unfold sel. rewrite map_app. fold (sel qs y). fold (sel (unmeasured n qs) y).
+      rewrite (sel_qs_psel y M1), (sel_un_psel y M1), M2, M3. reflexivity. }
+    rewrite Esel. destruct (order_ok n qs Hasc Hlt) as [O1 [O2 O3]].
+    rewrite (untranspose _ n y O1 O2 O3 M1). reflexivity.
+  Qed.
+
+  Theorem collapse_norm2_born shot psi :
+    collapse_norm2 n qs shot psi = born n qs (map zi_norm2 psi) (to_bin k shot).
+  Proof.
+    unfold collapse_norm2, born. fold k. f_equal.
+    assert (Ef : filter (fun x => beqb (sel qs x) (to_bin k shot)) (allbits n)
+                 = filter (fun x => beqb (psel p 0 x) (to_bin k shot)) (allbits n)).
+    { apply filter_ext_in. intros x Hx. apply allbits_length in Hx. now rewrite sel_qs_psel. }
+    rewrite Ef, filter_merge by (now rewrite to_bin_length, cntp_k).
+    rewrite to_bin_length, map_map. apply map_ext_in. intros beta Hb. apply allbits_length in Hb.
+    rewrite collapse_sub_merge by exact Hb.
+    change 0%Z with (zi_norm2 zi0). now rewrite map_nth.
+  Qed.
+End CollapseNorm.
+
+(* ---------- sorting the gate's qubits *)
+Lemma insert_asc q : forall l lo, asc lo l = true -> lo <= q -> ~ In q l -> asc lo (insert_sorted q l) = true.
+Proof.
+  induction l as [|x l IH]; intros lo Hasc Hlo Hnin; cbn [insert_sorted asc].
+  - apply andb_true_iff. split; [now apply Nat.leb_le | reflexivity].
+  - cbn [asc] in Hasc. apply andb_true_iff in Hasc. destruct Hasc as [H1 H2]. apply Nat.leb_le in H1.
+    destruct (q <=? x) eqn:E.
+    + apply Nat.leb_le in E. assert (q <> x) by (intros ->; apply Hnin; now left).
+      cbn [asc]. rewrite (proj2 (Nat.leb_le lo q) Hlo). cbn [andb].
+      rewrite (proj2 (Nat.leb_le (S q) x)) by lia. exact H2.
+    + apply Nat.leb_gt in E. cbn [asc]. rewrite (proj2 (Nat.leb_le lo x) H1). cbn [andb].
+      apply IH; [exact H2 | lia | intros H; apply Hnin; now right].
+Qed.
+
+Lemma insert_In q l x : In x (insert_sorted q l) <-> x = q \/ In x l.
+Proof.
+  induction l as [|y l IH]; cbn [insert_sorted]; [cbn; intuition|].
+  destruct (q <=? y); cbn [In]; [intuition|]. rewrite IH. intuition.
+Qed.
+
+Lemma insert_length q l : length (insert_sorted q l) = S (length l).
+Proof. induction l as [|y l IH]; cbn [insert_sorted]; [reflexivity|]. destruct (q <=? y); cbn [length]; auto. Qed.
+
+Lemma sort_nat_spec l : NoDup l ->
+  asc 0 (sort_nat l) = true /\ (forall x, In x (sort_nat l) <-> In x l) /\ length (sort_nat l) = length l.
+Proof.
+  induction 1 as [|x l Hx Hnd IH]; [cbn; intuition|].
+  destruct IH as [I1 [I2 I3]]. cbn [sort_nat fold_right]. fold (sort_nat l). split; [|split].
+  - apply insert_asc; [exact I1 | lia | now rewrite I2].
+  - intros y. rewrite insert_In, I2. cbn [In]. intuition.
+  - now rewrite insert_length, I3.
+Qed.
+
+Lemma sort_nat_asc_id l : forall lo, asc lo l = true -> sort_nat l = l.
+Proof.
+  induction l as [|x l IH]; intros lo H; [reflexivity|].
+  cbn [asc] in H. apply andb_true_iff in H. destruct H as [_ H].
+  cbn [sort_nat fold_right]. fold (sort_nat l). rewrite (IH _ H).
+  destruct l as [|y l']; [reflexivity|]. cbn [insert_sorted].
+  cbn [asc] in H. apply andb_true_iff in H. destruct H as [H _]. apply Nat.leb_le in H.
+  now rewrite (proj2 (Nat.leb_le x y)) by lia.
+Qed.
+
+(* M.apply: the state is collapsed onto the outcome of the SORTED qubits *)
+Theorem m_apply_sorted n tq shot psi :
+  NoDup tq -> (forall q, In q tq -> q < n) ->
+  collapsed (m_apply n tq shot psi) = Some (project n (sort_nat tq) (recorded (m_apply n tq shot psi)) psi) /\
+  cnorm2 (m_apply n tq shot psi) = born n (sort_nat tq) (map zi_norm2 psi) (recorded (m_apply n tq shot psi)).
+Proof.
+  intros Hnd Hlt. destruct (sort_nat_spec tq Hnd) as [S1 [S2 S3]].
+  unfold m_apply. cbn [collapsed recorded cnorm2]. split.
+  - apply collapse_state_sorted; [exact S1|]. intros q Hq. apply Hlt. now apply S2.
+  - apply collapse_norm2_born; [exact S1|]. intros q Hq. apply Hlt. now apply S2.
+Qed.
+
+(* the recorded bits are in the order of the gate's qubits: true for ascending lists *)
+Theorem m_apply_recorded_order_asc n tq shot psi :
+  asc 0 tq = true -> (forall q, In q tq -> q < n) ->
+  collapsed (m_apply n tq shot psi) = Some (project n tq (recorded (m_apply n tq shot psi)) psi).
+Proof.
+  intros Hasc Hlt.
+  destruct (m_apply_sorted n tq shot psi (asc_NoDup _ _ Hasc) Hlt) as [H _].
+  now rewrite (sort_nat_asc_id tq 0 Hasc) in H.
+Qed.
+
+(* ... and false in general *)
+Lemma m_apply_recorded_order_counterexample :
+  let n := 3 in let tq := [2; 0] in let shot := 2 in
+  let psi := [zi0; zi0; zi0; zi0; zi1; zi0; zi0; zi0] in
+  NoDup tq /\ (forall q, In q tq -> q < n) /\ shot < 2 ^ length tq /\
+  collapsed (m_apply n tq shot psi) <> Some (project n tq (recorded (m_apply n tq shot psi)) psi).
+Proof.
+  cbn zeta. split; [|split; [|split]].
+  - constructor; [cbn; intros [H|[]]; discriminate | constructor; [intros [] | constructor]].
+  - intros q [<-|[<-|[]]]; lia.
+  - cbn. lia.
+  - vm_compute. discriminate.
+Qed.
